@@ -260,7 +260,15 @@ def EXP_pair(t):
         if c == 0:
             continue
         if key is None:
-            # constant: exp(c) as an atom on the numeral term
+            # constant c = p/q: exp(c) = B_q^p with the base B_q = exp(1/q); bases are linked by B_q^q = e,
+            # so that e.g. exp(-1/2)*exp(-1/2) and exp(-1) denote the same number
+            p_, q_ = c.numerator, c.denominator
+            if q_ <= 64 and abs(p_) <= 64:
+                X, Y = ctx.exp_const_base(q_)
+                base = X if p_ > 0 else Y
+                for _ in range(abs(p_)):
+                    P = _mul(P, base)
+                continue
             atom = rv(abs(c))
             X, Y = ctx.exp_atom(atom)
             if c > 0:
@@ -473,6 +481,9 @@ class Sym:
             return NotImplemented
         if isinstance(o, float):  # +-inf / nan
             return _add_special(self, o)
+        f = _fold("add", self, o)
+        if f is not None:
+            return f
         if self.is_int and o.is_int:
             r = Sym(self.p + o.p, is_int=True)
         elif self.num is None and o.num is None:
@@ -489,6 +500,9 @@ class Sym:
 
     def __neg__(self):
         if self.num is None:
+            c = _numeral(self.p) if self.d is None else None
+            if c is not None:
+                return Sym(z3.IntVal(int(-c)), is_int=True) if self.is_int else Sym(rv(-c))
             r = Sym(-self.p, is_int=self.is_int)
         else:
             # -(p + log(n/d)) = -p + log(d/n); requires n > 0
@@ -530,6 +544,9 @@ class Sym:
             return NotImplemented
         if isinstance(o, float):
             return _mul_special(self, o)
+        f = _fold("mul", self, o)
+        if f is not None:
+            return f
         a, b = self, o
         if a.is_int and b.is_int:
             r = Sym(a.p * b.p, is_int=True)
@@ -572,6 +589,9 @@ class Sym:
             if k is not None and o.num is None and k != 0 and (1 / k).denominator == 1:
                 return self * int(1 / k)
             return _ctx().opaque("div", self, o)
+        f = _fold("div", self, o)
+        if f is not None:
+            return f
         if not _ctx().nonzero(o.real()):
             # numpy semantics: x/0 = nan (x == 0) or +-inf, with a RuntimeWarning
             if bool(self == 0):
@@ -829,6 +849,27 @@ def _const_frac(s):
     if z3.is_rational_value(t):
         return Fraction(t.numerator_as_long(), t.denominator_as_long())
     return None
+
+
+def _fold(op, a, b):
+    """Constant folding for plain numerals (keeps exp() decompositions consistent)."""
+    if a.num is not None or b.num is not None or a.d is not None or b.d is not None:
+        return None
+    x, y = _numeral(a.p), _numeral(b.p)
+    if x is None or y is None:
+        return None
+    if op == "add":
+        r = x + y
+    elif op == "mul":
+        r = x * y
+    elif op == "div":
+        if y == 0:
+            return None
+        r = x / y
+        return Sym(rv(r))
+    if a.is_int and b.is_int and r.denominator == 1:
+        return Sym(z3.IntVal(int(r)), is_int=True)
+    return Sym(rv(r))
 
 
 def _dz(s):
